@@ -147,7 +147,7 @@ func runSeq(r *ev.Recorder, c *seqCase) (key, msg string, st stats) {
 					return "index-reused", fmt.Sprintf("%s: emitted index %d after %d", tag, got, emitted[len(emitted)-1]), st
 				}
 				emitted = append(emitted, got)
-				if c.Mode == "real" {
+				if c.Mode == "real" && c.Hash <= 2 {
 					pk := x.GetPK()
 					if ok, lo := pu.LibXMSSVerify(o.Msg, sig, pk[:]); !ok || !pu.SpecXMSSVerify(o.Msg, sig, pk[:]) {
 						return "signature-invalid", fmt.Sprintf("%s: the signature does not verify (%s)", tag, lo), st
@@ -267,6 +267,13 @@ func TestCounterAutomaton(t *testing.T) {
 			if c.H == 10 {
 				c.H = 4
 			}
+		}
+		if rapid.IntRange(0, 19).Draw(rt, "oddHash") == 0 {
+			// a key object whose descriptor names a hash function id the library has no implementation for can be
+			// constructed; the index rules apply to it like to any other key object
+			c.Hash = uint(rapid.SampledFrom([]int{3, 5, 15}).Draw(rt, "hashId"))
+			c.Mode, c.H = "real", 4
+			r.Count("keys_with_unsupported_hash_id", 1)
 		}
 		c.Seed = pu.DetBytes(uint64(rapid.IntRange(1, 3).Draw(rt, "seedId")), 48)
 		c.Ops = drawSeq(rt, c.H)
